@@ -701,11 +701,11 @@ fn diff_ns(a: &BTreeMap<String, Oid>, b: &BTreeMap<String, Oid>) -> Vec<String> 
 }
 
 fn run_c01(ctx: &Ctx) {
-    ctx.run("scenarios", case_strategy(false), ctx.cases(192, 8_000), |c: &Case| check_c01(ctx, c));
+    ctx.run("scenarios", case_strategy(false), ctx.cases(192, 1_600), |c: &Case| check_c01(ctx, c));
 }
 
 fn run_c02(ctx: &Ctx) {
-    ctx.run("scenarios", case_strategy(true), ctx.cases(192, 8_000), |c: &Case| check_c02(ctx, c));
+    ctx.run("scenarios", case_strategy(true), ctx.cases(192, 1_600), |c: &Case| check_c02(ctx, c));
 }
 
 #[allow(dead_code)]
